@@ -134,11 +134,7 @@ def norm(v):
 
 
 def row_dict(d):
-    return {k: norm(x) for k, x in d.items() if not _isnull(x) and not _empty_array(x)}
-
-
-def _empty_array(x):
-    return False
+    return {k: norm(x) for k, x in d.items() if not _isnull(x)}
 
 
 def rows_of(obj):
@@ -326,6 +322,8 @@ def canon_decl_summary(s):
     parts = [s.symbol_name_to_scope_ids, s.scope_id_to_symbol_info, s.scope_id_to_available_scope_ids]
     if all(p is None for p in parts):
         return ABSENT
+    if any(isinstance(p, (list, tuple)) for p in parts):
+        return LIST_NOT_ITEM
     return [norm(s.unit_id)] + [ABSENT if p is None else dict_canon(p) for p in parts]
 
 
@@ -850,11 +848,6 @@ def _fieldname(path, k):
     if k.lstrip("-").isdigit():      # numeric dictionary keys (ids) are data, not field names
         return path
     return k
-
-
-def distance(got, want):
-    d = leaf_diff(got, want)
-    return sum(100 if x.endswith("#len") or x == "item" else 1 for x in d)
 
 
 def is_empty_canon(c):
@@ -1552,6 +1545,7 @@ CANON_BY_CLASS = {
 class SaveRecorder:
     def __init__(self):
         self.saved = {}        # id(loader object) -> key -> canonical form of the content of the last save
+        self.survived = {}     # id(loader object) -> key -> the item cache still held the key right after its last save
         self.count = 0
         self.uncanon = 0
         self.keep = []         # keep loader objects alive so that id() stays unique
@@ -1581,10 +1575,42 @@ def install_save_recorder():
                 rec.count += 1
             except Exception:
                 rec.uncanon += 1
-        return o_save(self, _id, item_content)
+        r = o_save(self, _id, item_content)
+        try:
+            rec.survived.setdefault(id(self), {})[_id] = bool(self.item_cache.contain(_id))
+        except Exception:
+            pass
+        return r
     G.save = save
     _SR = rec
     return rec
+
+
+def saved_digest(loader, rec):
+    """attribute name -> {"class": loader class, "items": {repr(key): zlib(json of the canonical content its last save() received)}}
+    for the GeneralLoader members."""
+    import zlib
+    import lian.util.loader as lmod
+    out = {}
+    for attr, gl in vars(loader).items():
+        if isinstance(gl, lmod.GeneralLoader) and id(gl) in rec.saved:
+            out[attr] = {"class": type(gl).__name__,
+                         "items": {repr(k): zlib.compress(json.dumps(c, sort_keys=True, default=str).encode(), 6)
+                                   for k, c in rec.saved[id(gl)].items()}}
+    return out
+
+
+def digest_difference(a, b):
+    """Leaf names where two compressed canonical contents differ (None when equal)."""
+    import zlib
+    if a == b:
+        return None
+    if a is None or b is None:
+        return ["item?missing"]
+    x, y = json.loads(zlib.decompress(a)), json.loads(zlib.decompress(b))
+    if x == y:
+        return None
+    return sorted(leaf_diff(x, y))[:6]
 
 
 def classify_plain(famname, want, got, stage, src=""):
@@ -1686,6 +1712,7 @@ def compare_live_and_restored(app, rec, wm, max_fail=80):
             continue
         gf = getattr(fresh, attr)
         saved = rec.saved.get(id(gl), {}) if rec else {}
+        survived = rec.survived.get(id(gl), {}) if rec else {}
         keys = list(gl.item_id_to_bundle_id.keys())
         info = out["loaders"].setdefault(attr, {"class": cname, "items": 0, "bundles": gl.bundle_count})
         out["bundles"] += gl.bundle_count
@@ -1726,6 +1753,10 @@ def compare_live_and_restored(app, rec, wm, max_fail=80):
                                 "%s: the write of %s failed (%s) and the item exists in no file" % (attr, os.path.basename(p), f["message"][:160]))
                         else:
                             add("%s:real-run:bundle-file-unreadable[%s]" % (cname, type(readable[p]).__name__), "%s %s" % (p, str(readable[p])[:160]))
+            try:
+                in_cache_before = bool(gl.item_cache.contain(key))
+            except Exception:
+                in_cache_before = False
             got_live = _safe_read(gl, key, fns[1])
             out["items_live"] += 1
             got_fresh = _safe_read(gf, key, fns[1])
@@ -1743,7 +1774,14 @@ def compare_live_and_restored(app, rec, wm, max_fail=80):
                         "%s item %r: the write of %s failed (%s); the %s cannot return it" % (attr, key, os.path.basename(bpath), f["message"][:120], label))
                     continue
                 fam, cls, detail = classify_plain(cname, want, got, stage)
-                add("%s:%s:%s" % (fam, stage, cls), "%s item %r, %s: %s" % (attr, key, label, detail))
+                if cls == "item-lost":
+                    cls = "item-lost[%s]" % ("unindexed" if key not in (gl if stage == "save-get" else gf).item_id_to_bundle_id else "indexed")
+                sig_stage = stage
+                if stage == "save-get" and survived.get(key) and in_cache_before:
+                    fam, sig_stage, cls = "*", "save-get-resave-get", "stale-item-cache"
+                elif cls == "empty-item-reads-as-list":
+                    sig_stage = "save-export-get"       # one stage for every place it shows
+                add("%s:%s:%s" % (fam, sig_stage, cls), "%s item %r, %s: %s" % (attr, key, label, detail))
     # non-bundle loaders: the live object's data against the restored object's data
     for attr, obj in sorted(vars(live).items()):
         if isinstance(obj, lmod.GeneralLoader) or not attr.startswith("_") or not hasattr(obj, "export"):
